@@ -92,6 +92,31 @@ def blocking_entry_points(run: lib.Run):
             "HotReloader.check_and_reload(force, async source)": lambda: rloader.HotReloader(Guard(P), AsyncSrc()).check_and_reload(force=True),
         }
 
+        # collaborators that re-enter the engine: a role resolver / obligation checker that asks a SECOND Guard through the sync API
+        def nested(kind):
+            def f():
+                inner = Guard({"algorithm": "deny-overrides", "rules": [{"id": "d", "effect": "permit", "actions": ["*"], "resource": {"type": "*"}}]})
+
+                class SyncRes:
+                    def expand(self, roles):
+                        return ["delegate"] if inner.evaluate_sync(*req).allowed else []
+
+                class AsyncRes:
+                    async def expand(self, roles):
+                        return ["delegate"] if inner.evaluate_sync(*req).allowed else []
+
+                class AsyncRes2:
+                    async def expand(self, roles):
+                        return ["delegate"] if (await inner.evaluate_async(*req)).allowed else []
+                res = {"sync": SyncRes, "async": AsyncRes, "async-await": AsyncRes2}[kind]()
+                outer = Guard({"algorithm": "deny-overrides", "rules": [{"id": "r", "effect": "permit", "actions": ["read"], "resource": {"type": "doc"},
+                                                                         "condition": {"contains": [{"attr": "subject.roles"}, "delegate"]}}]},
+                              role_resolver=res)
+                return outer.evaluate_sync(*req).allowed is True
+            return f
+        for kind in ("sync", "async", "async-await"):
+            probes[f"Guard.evaluate_sync with a {kind} role resolver that evaluates on a second Guard"] = nested(kind)
+
         def start_stop(initial, force, timeout, src_cls=BlockingSrc):
             def f():
                 r = rloader.HotReloader(Guard(P), src_cls(), initial_load=initial, poll_interval=0.05)
@@ -151,9 +176,35 @@ def blocking_entry_points(run: lib.Run):
             if not ok:
                 run.spec_failures.append({"part": "blocking entry point", "entry": name, "context": ctx, "observed": res,
                                           "spec": "a blocking entry point did not return (deadlock)"})
+            elif name.startswith("Guard.evaluate_sync with a") and res is not True:
+                run.spec_failures.append({"part": "blocking entry point", "entry": name, "context": ctx, "observed": res,
+                                          "spec": "a nested evaluation through a collaborator returned another decision in this calling context"})
             elif isinstance(res, str) and res.startswith(("RuntimeError", "Timeout")):
                 run.spec_failures.append({"part": "blocking entry point", "entry": name, "context": ctx, "observed": res,
                                           "spec": "a blocking entry point raised instead of returning"})
+
+
+class _Scrubber:
+    """overwrites, in place, every top-level subject / resource / context attribute and the role list of the env it is handed
+    (what an in-place redaction of `subject.attrs.x` / `context.y` does); nested values are replaced, never mutated"""
+
+    def log(self, payload):
+        env = payload.get("env") or {}
+        for path in (("subject", "attrs"), ("resource", "attrs"), ("context",)):
+            m = env
+            for seg in path:
+                m = m.get(seg) if isinstance(m, dict) else None
+            if isinstance(m, dict):
+                for k in list(m):
+                    m[k] = "***"
+        roles = (env.get("subject") or {}).get("roles")
+        if isinstance(roles, list):
+            roles[:] = ["***"] * len(roles)
+        for k in ("id",):
+            if isinstance(env.get("subject"), dict):
+                env["subject"][k] = "***"
+            if isinstance(env.get("resource"), dict):
+                env["resource"][k] = "***"
 
 
 def flavours_and_mutation(run: lib.Run, audit: dict):
@@ -174,6 +225,17 @@ def flavours_and_mutation(run: lib.Run, audit: dict):
         if diff:
             run.spec_failures.append({"part": "flavour equality", "policy": pol, "request": req, "cfg": cfg, "outcomes": outs, "differing": diff,
                                       "spec": "API flavours / sync vs async collaborators returned different decisions or events"})
+        if i % 3 == 0:
+            # a log sink that scrubs the payload it is handed IN PLACE (as DecisionLogger(redact_in_place=True) does): the env is the
+            # engine's own object — the caller's subject / resource / context and the policy must stay untouched
+            try:
+                g = real.make_guard(pol, {k: v for k, v in cfg.items() if k not in ("logger", "metrics")}, [])
+                g.logger_sink = _Scrubber()
+                real.call_guard(g, req)
+                real.call_guard(g, req, "async")
+                run.count("scrubbing-sink")
+            except Exception:  # noqa: BLE001
+                pass
         if proto.canon(pol) != pol_before or proto.canon(req) != req_before:
             run.spec_failures.append({"part": "mutation", "policy": pol, "request": req, "policy_before": json.loads(pol_before),
                                       "spec": "evaluation mutated the policy or the request"})
@@ -220,9 +282,9 @@ def concurrency(run: lib.Run):
 
 def check(run: lib.Run, audit: dict) -> int:
     run.rule = ("deadlock: per-run obligation over 5 traced scenarios (check / start+stop × plain / running loop × initial load) + every blocking "
-                "entry point × {plain thread, running loop, worker thread} under a watchdog (23 probes per context incl. async source, stop(None) "
+                "entry point × {plain thread, running loop, worker thread} under a watchdog (26 probes per context incl. collaborators that re-enter a second Guard, async source, stop(None) "
                 "with the poller mid-check, stop/start/diagnostics with the poller stuck inside source.load()/etag()); flavours: C01 template pool (subsampled) + random grammar cases × 7 flavours (sync / async API / sync inside a loop × sync, async-def and awaitable-returning collaborators) with recording sinks, "
-                "policy/request canonical form compared before/after; one batch of 60 concurrent evaluate_async over 12 engines against the "
+                "policy/request canonical form compared before/after (every third case also with a log sink that scrubs its payload in place); one batch of 60 concurrent evaluate_async over 12 engines against the "
                 "sequential results. non-trivial = a rule decided")
     run.assumptions = ["flavour equality, non-interference and non-mutation are observed, not proved (PARTIAL)",
                        "threading.RLock is a correct re-entrant mutex; Future.result/Thread.join block until the thread finishes"]
